@@ -195,8 +195,8 @@ pub fn run(ctx: &Ctx) {
             let r = sc_of(&r);
             // ff contract: (1, sqrt(num/div)) if num/div square and div != 0; (0, sqrt(G_S * num/div)) otherwise; (1,0) if num=0 (div!=0); (0,0) if div = 0
             let ok = if y.is_zero() {
-                // div = 0: (false, 0) unless num = 0 too, where ff specifies (false? ...) -> generic helper returns (num==0? ...); only check r^2 consistency
-                r.is_zero() || !c
+                // div = 0 (ff::Field::sqrt_ratio): (true, 0) if num is zero as well, (false, 0) otherwise
+                r.is_zero() && c == m.is_zero()
             } else {
                 let q = m.mul(&y.inv());
                 if c { r.mul(&r) == q } else { r.mul(&r) == q.mul(&rou) }
